@@ -67,6 +67,11 @@ type Ev struct {
 	U    string   `json:"u,omitempty"`
 	X    string   `json:"x,omitempty"`
 	Rd   *ReadObs `json:"rd,omitempty"`
+	T    int64    `json:"t,omitempty"` // microseconds since the start of the run; for the reader of a witness only, no oracle uses it
+	// only on the trailing "end" record
+	Held  int   `json:"held,omitempty"`
+	Ticks int   `json:"ticks,omitempty"`
+	Stall int64 `json:"stall_us,omitempty"` // longest delay of a 2 ms sleeper beyond its period: machine/scheduler stalls
 }
 
 type rawEv struct {
@@ -77,6 +82,7 @@ type rawEv struct {
 }
 
 type recorder struct {
+	t0    time.Time
 	mu    sync.Mutex
 	seq   int64
 	evs   []rawEv
@@ -92,6 +98,7 @@ func (r *recorder) add(e rawEv) {
 	r.mu.Lock()
 	r.seq++
 	e.Seq = r.seq
+	e.T = int64(time.Since(r.t0) / time.Microsecond)
 	r.evs = append(r.evs, e)
 	r.mu.Unlock()
 }
@@ -127,6 +134,7 @@ func (r *recorder) flush(path string, tail Ev) {
 }
 
 type nodeLive struct {
+	wake                         chan struct{} // poked by the tick/merged/send hooks of the node
 	ticks, merges, sends, queued atomic.Int64
 	idleStreak                   atomic.Int64
 	bActive                      atomic.Int32
@@ -145,6 +153,23 @@ type env struct {
 	stop  atomic.Bool
 	pcnt  atomic.Uint64
 	heldT atomic.Int64 // sections that ended after >=1 tick and >=1 merge since their first write (live count, light mode)
+}
+
+func (l *nodeLive) poke() {
+	select {
+	case l.wake <- struct{}{}:
+	default:
+	}
+}
+
+// nap waits for the next hook event of the node, at most d.
+func (l *nodeLive) nap(d time.Duration) {
+	t := time.NewTimer(d)
+	select {
+	case <-l.wake:
+	case <-t.C:
+	}
+	t.Stop()
 }
 
 func (e *env) perturb() {
@@ -187,6 +212,7 @@ func (e *env) installHooks() {
 			}
 			e.rec.add(rawEv{Ev: Ev{K: "tick", N: n, Need: need}})
 			l.ticks.Add(1)
+			l.poke()
 		},
 		BroadcastStart: func(id tla.Value, stable resources.CRDTValue) {
 			n := nodeOf(id)
@@ -197,6 +223,7 @@ func (e *env) installHooks() {
 			n := nodeOf(id)
 			e.rec.add(rawEv{Ev: Ev{K: "send", N: n, P: nodeOf(peer)}})
 			e.live[n].sends.Add(1)
+			e.live[n].poke()
 			if e.c.Perturb {
 				e.perturb()
 			}
@@ -227,6 +254,7 @@ func (e *env) installHooks() {
 			n := nodeOf(id)
 			e.rec.add(rawEv{Ev: Ev{K: "merged", N: n, In: hasOld}, v: rcvd})
 			e.live[n].merges.Add(1)
+			e.live[n].poke()
 		},
 	}
 }
@@ -248,7 +276,10 @@ func (p *probe) ReadValue(iface distsys.ArchetypeInterface) (tla.Value, error) {
 	l := p.live()
 	if p.throttle {
 		for !p.e.stop.Load() && l.ticks.Load() == l.lastReadTicks && l.merges.Load() == l.lastReadMerges {
-			time.Sleep(100 * time.Microsecond)
+			l.nap(2 * time.Millisecond)
+		}
+		if p.e.stop.Load() {
+			time.Sleep(200 * time.Microsecond) // the archetype spins on this read until Stop takes effect
 		}
 		l.lastReadTicks, l.lastReadMerges = l.ticks.Load(), l.merges.Load()
 	}
@@ -280,7 +311,9 @@ func (p *probe) endSection() {
 	l.hasSnap = false
 }
 
-func (p *probe) PreCommit(iface distsys.ArchetypeInterface) chan error { return p.inner.PreCommit(iface) }
+func (p *probe) PreCommit(iface distsys.ArchetypeInterface) chan error {
+	return p.inner.PreCommit(iface)
+}
 func (p *probe) Commit(iface distsys.ArchetypeInterface) chan struct{} {
 	ch := p.inner.Commit(iface)
 	p.endSection()
@@ -343,14 +376,14 @@ func (g *gate) hold(mode string) {
 		if ok || t >= capT {
 			return
 		}
-		time.Sleep(40 * time.Microsecond)
+		l.nap(2 * time.Millisecond)
 	}
 }
 
 func (g *gate) waitIdle() {
 	l := g.live()
 	for !g.e.stop.Load() && l.ticks.Load() < g.idleTo {
-		time.Sleep(100 * time.Microsecond)
+		l.nap(2 * time.Millisecond)
 	}
 }
 
@@ -389,7 +422,7 @@ func (g *gate) ReadValue(distsys.ArchetypeInterface) (tla.Value, error) {
 	case "ctl", "in":
 		if g.idx >= len(g.plan) || g.e.stop.Load() {
 			g.markDone()
-			time.Sleep(200 * time.Microsecond)
+			time.Sleep(time.Millisecond)
 			return tla.Value{}, errAbort
 		}
 		g.waitIdle()
@@ -595,11 +628,23 @@ func childMain() {
 		os.Exit(4)
 	}
 	outPath := os.Args[2]
-	e := &env{c: c, rec: &recorder{light: c.Light}, live: make([]*nodeLive, c.Nodes+1)}
+	e := &env{c: c, rec: &recorder{light: c.Light, t0: time.Now()}, live: make([]*nodeLive, c.Nodes+1)}
 	for i := range e.live {
-		e.live[i] = &nodeLive{}
+		e.live[i] = &nodeLive{wake: make(chan struct{}, 1)}
 	}
 	e.installHooks()
+	var maxStall atomic.Int64
+	go func() {
+		last := time.Now()
+		for {
+			time.Sleep(2 * time.Millisecond)
+			now := time.Now()
+			if d := int64(now.Sub(last)/time.Microsecond) - 2000; d > maxStall.Load() {
+				maxStall.Store(d)
+			}
+			last = now
+		}
+	}()
 
 	ports := freePorts(c.Nodes)
 	addr := func(id tla.Value) string { return "127.0.0.1:" + strconv.Itoa(ports[id.AsNumber()-1]) }
@@ -617,7 +662,9 @@ func childMain() {
 			}
 		}
 		res := resources.NewCRDT(self, peers, addr, newValue,
-			resources.WithCRDTBroadcastInterval(time.Duration(c.IntervalMs)*time.Millisecond))
+			resources.WithCRDTBroadcastInterval(time.Duration(c.IntervalMs)*time.Millisecond),
+			// generous, so that a stall of the (shared, loaded) machine is not taken for an unreachable peer
+			resources.WithCRDTSendTimeout(25*time.Second), resources.WithCRDTDialTimeout(25*time.Second))
 		probes[i] = &probe{inner: res, node: i, e: e, throttle: c.Engine == "gcounter"}
 	}
 	toMap := func(i int) distsys.ArchetypeResource {
@@ -692,7 +739,7 @@ func childMain() {
 			verdict = "watchdog-plans"
 			break
 		}
-		time.Sleep(200 * time.Microsecond)
+		time.Sleep(time.Millisecond)
 	}
 	// phase 2: at least tickBound+2 further ticks everywhere, then a quiet network (three consecutive ticks
 	// that found nothing to broadcast, no round in progress, merge queue drained); capped by ticks
@@ -724,7 +771,7 @@ func childMain() {
 				verdict = "watchdog-quiesce"
 				break
 			}
-			time.Sleep(200 * time.Microsecond)
+			time.Sleep(time.Millisecond)
 		}
 	}
 	e.rec.add(rawEv{Ev: Ev{K: "quiesced", X: quiesced}})
@@ -760,6 +807,6 @@ func childMain() {
 	for i := 1; i <= c.Nodes; i++ {
 		ticks += e.live[i].ticks.Load()
 	}
-	e.rec.flush(outPath, Ev{K: "end", X: verdict, U: errText, Need: int(e.heldT.Load()), N: int(ticks)})
+	e.rec.flush(outPath, Ev{K: "end", X: verdict, U: errText, Held: int(e.heldT.Load()), Ticks: int(ticks), Stall: maxStall.Load()})
 	os.Exit(0)
 }
